@@ -387,7 +387,8 @@ func RunNestedTx(r sim.Src, mons []*sim.Mon, keepLog bool) *sim.World {
 	if k0 > 1 && r.Intn("rot0", 2) == 1 {
 		tx0[0], tx0[k0-1] = tx0[k0-1], tx0[0]
 	}
-	nd.Receive(s.Proposal(0, s.NextTs(), 10, tx0...))
+	p0 := s.Proposal(0, s.NextTs(), 10, tx0...)
+	nd.Receive(p0)
 	supply := func(txs []vt.Tx, label string) {
 		order := make([]int, len(txs))
 		for i := range order {
@@ -414,7 +415,22 @@ func RunNestedTx(r sim.Src, mons []*sim.Mon, keepLog bool) *sim.World {
 			nd.Transaction(txs[i])
 		}
 	}
-	supply(tx0, "order0")
+	if r.Intn("pooltimeout", 3) == 0 && nd.D.ViewNumber == 0 {
+		// the last transaction of the failing proposal reaches the pool instead of the node; more than F peers have
+		// committed, so the node's timeout becomes a recovery request whose re-lookup completes the proposal - the
+		// nested view change then happens inside OnTimeout, under sendRecoveryRequest
+		supply(tx0[:len(tx0)-1], "order0")
+		nd.AddTx(tx0[len(tx0)-1])
+		for i := 0; i <= (n-1)/3; i++ {
+			nd.Receive(s.Commit(others[(i+rot)%len(others)], p0))
+		}
+		if nd.Timer.Pending && nd.D.ViewNumber == 0 {
+			s.Fire()
+			s.W.Stat("c12_pool_completion_on_timeout")
+		}
+	} else {
+		supply(tx0, "order0")
+	}
 	if nd.D.ViewNumber == 1 {
 		s.W.Stat("c12_nested_view_change")
 	}
